@@ -1,5 +1,6 @@
 import HotstuffModel.Proofs.Reachable
 import HotstuffModel.Proofs.NodeInv6
+import HotstuffModel.Proofs.CommitLive
 /-!
 # C06 — Liveness with up to f crashed nodes (PARTIAL: enabling lemmas)
 
@@ -108,6 +109,20 @@ theorem tc_synchronises_view (c : Committee) (s : Node) (tc : TC) (hv : tc.verif
 
 theorem qc_synchronises_view (s : Node) (qc : QC) : qc.round < (s.processQC qc).round :=
   (processQC_facts s qc).1
+
+/-- (L7) The commit rule fires.  In every reachable state of a node, a proposal `b` from its round's
+leader that passes `verify`, whose batches the node holds, and whose parent `b1` and grandparent
+`b0` the node has stored with `b0.round + 1 = b1.round`, leaves `last_committed_round ≥ b0.round`:
+three consecutive certified proposals commit the first (the "if" direction of C05's rule). -/
+theorem consecutive_chain_commits (c : Committee) (name : Nat) (hd : Deploy c name) (es : List Event)
+    (b b1 b0 : Block)
+    (hl : b.author = c.leader b.round) (hv : b.verify c = .ok ())
+    (hpay : ∀ d ∈ b.payload, d ∈ (run c (init c name) es).avail)
+    (hp1 : (getParent c (run c (init c name) es) b).2 = .found b1)
+    (hp0 : (getParent c (run c (init c name) es) b1).2 = .found b0)
+    (h2 : b0.round + 1 = b1.round) :
+    b0.round ≤ ((run c (init c name) es).handleProposal c b).lastCommitted :=
+  handleProposal_commits c _ b b1 b0 (reachable_inv4 c name hd rfl es) hl hv hpay hp1 hp0 h2
 
 /-- Non-vacuity / good case on one node: blocks of three consecutive rounds commit the first. -/
 example :
